@@ -87,6 +87,9 @@ def run(ctx):
     r4(ctx)
 
 
+RULE_FUNCS = [r1, r4]
+
+
 def _rep(a, b):
     def edit(t):
         if a not in t:
